@@ -69,8 +69,8 @@ Definition cl_term := 6.
 Definition cl_char := 7.
 Definition cl_text := 8.
 Definition cl_nofile := 9.
-Definition cl_newargs := 12.
-Definition cl_member_tostring := 13.
+(* 12 (new: arguments before the constructor reference, 920f952) and 13 (subscript ToString before
+   CheckObjectCoercible, 322af24) are repaired in /repo *)
 (* 10 (RegExp pattern TypeError, ef38bfe) and 11 (FileSet.Position, 6df0226) are repaired in /repo *)
 
 Definition with_fix (i : Z) : fixes :=
@@ -147,7 +147,7 @@ Definition verdict (c : case) : Z * Z :=
       match spec_eval id, model_eval id with
       | Some sp, Some mo =>
           judge (fun a b => (fst (fst a) =? fst (fst b)) && (snd (fst a) =? snd (fst b)) && zlist_eqb (snd a) (snd b))
-                obs mo sp (if (id =? 4) || (id =? 45) then cl_newargs else cl_member_tostring)
+                obs mo sp 99
       | _, _ => declined
       end
   | COrder op l r obs =>
